@@ -30,3 +30,18 @@ REG.schema("PluginEvent", bases=["EVEvent"])
 REG.schema("UnplugEvent", bases=["EVEvent"])
 REG.schema("RecomputeEvent", bases=["Event"])
 REG.schema("EventQueue", bases=["BaseSimObj"], _queue=Seq(Tup(Int, Ref("Event"))), _timestep=Int)
+
+# ---- network / simulator
+REG.schema("ChargingNetwork", bases=["BaseSimObj"],
+           _EVSEs=Map(Id, Ref("BaseEVSE"), ordered=True), constraint_matrix=Opt(Mat), magnitudes=Seq(Real),
+           constraint_index=Seq(Id), _voltages=Seq(Real), _phase_angles=Seq(Real), violation_tolerance=Real,
+           relative_tolerance=Real, _station_ids_dict=Map(Id, Int), max_pilot_signals=Seq(Real), min_pilot_signals=Seq(Real),
+           allowable_rates=Seq(Seq(Real)), is_continuous=Seq(Bool))
+REG.schema("BaseAlgorithm", _interface=Ref("Interface", nullable=True), max_recompute=Opt(Int),
+           ghost_calls=Seq(Int))        # ghost: periods in which run() was invoked
+REG.schema("Interface", _simulator=Ref("Simulator"))
+REG.schema("Simulator", bases=["BaseSimObj"],
+           network=Ref("ChargingNetwork", exact=True), scheduler=Ref("BaseAlgorithm", nullable=True), max_recompute=Opt(Int),
+           event_queue=Ref("EventQueue"), period=Real, verbose=Bool, pilot_signals=Mat, charging_rates=Mat, peak=Real,
+           ev_history=Map(Id, Ref("EV"), ordered=True), event_history=Seq(Ref("Event")),
+           schedule_history=Opt(Map(Int, Map(Id, Seq(Real)))), _iteration=Int, _resolve=Bool, _last_schedule_update=Opt(Int))
